@@ -216,6 +216,8 @@ def run(tier):
                 'va-omitted-3': b'#define E(f, ...) f(__VA_ARGS__)\n#define S(x, ...) #x #__VA_ARGS__\nint g(); int h = E(g); const char *s = S(a); const char *t = S(a,); const char *u = S();\n',
                 'enum-forward-fixed': b'enum E : short; enum E *p; int f(void) { return *p; }\n', 'enum-forward-fixed-2': b'enum F : unsigned char; enum F g(enum F *q) { return q[1]; }\n',
                 'enum-forward-fixed-3': b'enum G : long; extern enum G v; long h(void) { return v; }\n',
+                # strings built by # that are still pending (in another macro's argument, in a concatenation) when the next invocation finishes
+                'str-pending': b'#define STR(x) #x\n#define ID(x) x\n#define P2(a, b) a b\nconst char *v = ID(STR(major) "." STR(minor));\nconst char *w = STR(a) STR(b) STR(c);\nconst char *z = P2(STR(q), STR(r)) STR(s);\nconst char *y = ID(ID(STR(k)) P2(STR(l), ID(STR(m))));\n',
                 'dots-expr': b'struct s { int a; } v; int f(void) { return v..a; }\n'}
     vfiles = []
     for k, v in variants.items():
